@@ -40,10 +40,11 @@ const BlockSize = 1
 //	F          Flush()
 type Scenario struct {
 	Name    string     `json:"name"`
-	Limits  bool       `json:"limits"`  // mempool_enable_txs_limits
-	Pre     []string   `json:"pre"`     // executed by the main thread before the threads start
-	Threads [][]string `json:"threads"` // concurrent
-	Post    []string   `json:"post"`    // executed by the main thread after all threads returned; R:-1 and Z are appended
+	Limits  bool       `json:"limits"`          // mempool_enable_txs_limits
+	Pre     []string   `json:"pre"`             // executed by the main thread before the threads start
+	Threads [][]string `json:"threads"`         // concurrent
+	Post    []string   `json:"post"`            // executed by the main thread after all threads returned; R:-1 and Z are appended
+	Rungs   int        `json:"rungs,omitempty"` // explore only the first Rungs schedule spaces of the ladder (0 = all): wide thread sets
 }
 
 // Limit returns the configured size bound (0 = none).
@@ -288,7 +289,8 @@ func Scenarios(quick bool) []Scenario {
 	if !quick {
 		s = append(s,
 			Scenario{Name: "cross3", Threads: [][]string{{"S:0", "S:1"}, {"S:1", "S:0"}, {"R:-1"}}},
-			Scenario{Name: "L/four-into-2", Limits: true, Threads: [][]string{{"S:0"}, {"S:1"}, {"S:2"}, {"S:3"}}},
+			// four threads: preemption bound 1 only (bound 2 alone is > 200 000 schedules)
+			Scenario{Name: "L/four-into-2", Limits: true, Threads: [][]string{{"S:0"}, {"S:1"}, {"S:2"}, {"S:3"}}, Rungs: 2},
 		)
 	}
 	return s
